@@ -424,9 +424,9 @@ func init() {
 		Setup:       validateOracle,
 		Timeout:     minutes(15, 120),
 		Cases: func(tier string, seed int64) []fw.Case {
-			l := mkCases(nil, "repeat", 32, seed, pick(tier, 20, 1500))
-			l = mkCases(l, "engines", 16, seed, pick(tier, 6, 300))
-			l = mkCases(l, "concurrent", 8, seed, pick(tier, 3, 120))
+			l := mkCases(nil, "repeat", 32, seed, pick(tier, 20, 600))
+			l = mkCases(l, "engines", 16, seed, pick(tier, 6, 120))
+			l = mkCases(l, "concurrent", 8, seed, pick(tier, 3, 60))
 			return l
 		},
 		Floors: func(string) map[string]int64 {
